@@ -1,118 +1,21 @@
 ------------------------------- MODULE ExecOpt -------------------------------
 (***************************************************************************)
-(* EVERY executable schedule, with its cost.                               *)
-(*                                                                         *)
-(* The executor (Executor.tla) reduced to what matters for cost, so that   *)
-(* TLC can explore all behaviours of a client that completes one adjoint   *)
-(* calculation over n steps:                                               *)
-(*   pos   step at which the forward state in WORK stands, or -1           *)
-(*   a     adjoint position: steps a..n-1 have been reversed               *)
-(*   ram, disk   steps with a restart checkpoint in RAM / on DISK          *)
-(*   dep   steps whose adjoint dependencies are stored in a unit (Mixed)   *)
-(*   cost  uf per forward step, wd per DISK write, rd per DISK load        *)
-(*         (ub * n is the same constant for every schedule, added outside) *)
-(* Actions mirror Executor one-to-one:                                     *)
-(*   Advance   Forward(pos, pos+k, write_ics?, False, st) - optionally     *)
-(*             storing a restart checkpoint of pos first (evicting one     *)
-(*             checkpoint if the level is full: a delete is free)          *)
-(*   StoreDeps Forward(pos, pos+1, False, True, unit)  (AllowDeps: Mixed)  *)
-(*   StepRev   Forward(a-1, a, False, True, WORK); Reverse(a, a-1, True)   *)
-(*   RevStored Move(a-1, unit, WORK); Reverse(a, a-1, True)                *)
-(*   Load      Copy/Move(c, RAM|DISK, WORK)                                *)
-(* Checkpoints at or beyond the adjoint position are useless and dropped.  *)
-(* There is no direct RAM<->DISK transfer (the operation model of Revolve, *)
-(* Disk-Revolve and H-Revolve has none, and no class emits one).           *)
-(*                                                                         *)
-(* An INSTANCE fixes n, the unit budgets, the cost vector, and the CLAIM:   *)
-(* the cost the implementation achieved (from validated traces).  TLC       *)
-(* explores every behaviour whose cost can still end below the claim; any   *)
-(* completed behaviour cheaper than the claim is printed as a verdict.      *)
+(* The optimality search: ExecOptCore (every executable schedule, with its *)
+(* cost) started from every instance of a file.  An INSTANCE fixes n, the  *)
+(* unit budgets, the cost vector and the CLAIM: the cost the               *)
+(* implementation achieved (from validated traces).  TLC explores every    *)
+(* behaviour whose cost can still end below the claim; any completed       *)
+(* behaviour cheaper than the claim is printed as a verdict.               *)
 (***************************************************************************)
-EXTENDS Integers, FiniteSets, Sequences, TLC, Json, IOUtils
+EXTENDS ExecOptCore, Json, IOUtils
 
 Insts == JsonDeserialize(IOEnv.INST_FILE)
-  \* [n, cm, cd (-1 = unbounded), uf, wd, rd, deps (0/1), oneread (0/1), claim]
+  \* sequence of [idx, n, cm, cd (-1 = unbounded), uf, wd, rd, deps (0/1), oneread (0/1), claim]
 
-VARIABLES i, pos, a, ram, disk, dep, cost
-vars == <<i, pos, a, ram, disk, dep, cost>>
-
-I == Insts[i]
-CM == I.cm   CD == I.cd   UF == I.uf   WD == I.wd   RD == I.rd
-AllowDeps == I.deps = 1
-OneRead == I.oneread = 1
-Units == Cardinality(ram) + Cardinality(dep)      \* Mixed: one pool of units
-
-Init == /\ i \in 1..Len(Insts)
-        /\ pos = 0 /\ a = Insts[i].n /\ ram = {} /\ disk = {} /\ dep = {} /\ cost = 0
-
-(* Store a restart checkpoint of the current position in RAM: into a free unit, *)
-(* or in place of any one stored item.                                          *)
-StoreRam ==
-  /\ CM > 0 /\ pos \notin ram /\ pos \notin dep
-  /\ \/ Units < CM /\ ram' = ram \cup {pos} /\ dep' = dep
-     \/ Units >= CM /\ \E c \in ram : ram' = (ram \ {c}) \cup {pos} /\ dep' = dep
-     \/ Units >= CM /\ \E c \in dep : dep' = dep \ {c} /\ ram' = ram \cup {pos}
-
-StoreDisk ==
-  /\ CD # 0 /\ pos \notin disk
-  /\ \/ (CD < 0 \/ Cardinality(disk) < CD) /\ disk' = disk \cup {pos}
-     \/ (CD > 0 /\ Cardinality(disk) >= CD) /\ \E c \in disk : disk' = (disk \ {c}) \cup {pos}
-
-Advance ==
-  /\ pos >= 0
-  /\ \E k \in 1..(a - 1 - pos) :
-       /\ pos' = pos + k
-       /\ \/ UNCHANGED <<ram, disk, dep>> /\ cost' = cost + k * UF
-          \/ StoreRam /\ disk' = disk /\ cost' = cost + k * UF
-          \/ StoreDisk /\ UNCHANGED <<ram, dep>> /\ cost' = cost + k * UF + WD
-  /\ UNCHANGED <<i, a>>
-
-(* Mixed: run step pos storing its adjoint dependencies in a unit. *)
-StoreDeps ==
-  /\ AllowDeps /\ pos >= 0 /\ pos < a /\ pos \notin dep /\ CM > 0
-  /\ \/ Units < CM /\ dep' = dep \cup {pos} /\ ram' = ram
-     \/ Units >= CM /\ \E c \in dep : dep' = (dep \ {c}) \cup {pos} /\ ram' = ram
-     \/ Units >= CM /\ \E c \in ram : ram' = ram \ {c} /\ dep' = dep \cup {pos}
-  /\ pos' = pos + 1 /\ cost' = cost + UF
-  /\ UNCHANGED <<i, a, disk>>
-
-Drop(S, b) == {c \in S : c < b}
-
-(* Run the last unreversed step with its dependencies into WORK and reverse it. *)
-StepRev ==
-  /\ pos = a - 1 /\ a > 0
-  /\ a' = a - 1 /\ pos' = -1 /\ cost' = cost + UF
-  /\ ram' = Drop(ram, a - 1) /\ disk' = Drop(disk, a - 1) /\ dep' = Drop(dep, a - 1)
-  /\ UNCHANGED i
-
-(* Load stored dependencies of the last unreversed step and reverse it. *)
-RevStored ==
-  /\ a > 0 /\ (a - 1) \in dep
-  /\ a' = a - 1 /\ pos' = -1 /\ cost' = cost
-  /\ ram' = Drop(ram, a - 1) /\ disk' = Drop(disk, a - 1) /\ dep' = Drop(dep, a - 1)
-  /\ UNCHANGED i
-
-LoadRam ==
-  /\ \E c \in ram, mv \in BOOLEAN :
-       /\ pos' = c /\ ram' = (IF mv THEN ram \ {c} ELSE ram)
-  /\ UNCHANGED <<i, a, disk, dep, cost>>
-
-LoadDisk ==
-  /\ \E c \in disk, mv \in BOOLEAN :
-       /\ OneRead => mv
-       /\ pos' = c /\ disk' = (IF mv THEN disk \ {c} ELSE disk)
-  /\ cost' = cost + RD
-  /\ UNCHANGED <<i, a, ram, dep>>
-
-Next == Advance \/ StoreDeps \/ StepRev \/ RevStored \/ LoadRam \/ LoadDisk
+Init == \E j \in 1..Len(Insts) : InitFor(Insts[j])
 Spec == Init /\ [][Next]_vars
 
-(* Admissible bound: every unreversed step without stored dependencies still *)
-(* needs at least one forward step.                                          *)
-Remaining == UF * (a - Cardinality(dep))
-Prune == cost + Remaining < I.claim
-
 (* A completed adjoint calculation cheaper than the implementation's. *)
-Cheaper == (a = 0 /\ cost < I.claim) => PrintT(<<"@V", i, cost, "V@">>)
-NoCheaper == ~(a = 0 /\ cost < I.claim)
+Cheaper == (a = 0 /\ cost < par.claim) => PrintT(<<"@V", par.idx, cost, "V@">>)
+NoCheaper == ~(a = 0 /\ cost < par.claim)
 =============================================================================
